@@ -1,13 +1,19 @@
 //! One module per property; `lookup` maps an id to its entry point.
 use crate::engine::Run;
 
+pub mod c01;
+pub mod c02;
 pub mod c03;
 pub mod c04;
 pub mod c05;
 pub mod c06;
 pub mod c07;
 pub mod c08;
+pub mod c09;
+pub mod c10;
 pub mod c11;
+pub mod c20;
+pub mod mapper;
 pub mod c12;
 pub mod c13;
 pub mod c14;
@@ -19,6 +25,11 @@ pub mod c19;
 
 pub fn lookup(id: &str) -> Option<fn(&mut Run)> {
     Some(match id {
+        "C01" => c01::run,
+        "C02" => c02::run,
+        "C09" => c09::run,
+        "C10" => c10::run,
+        "C20" => c20::run,
         "C03" => c03::run,
         "C04" => c04::run,
         "C05" => c05::run,
